@@ -701,9 +701,12 @@ func main() {
 		r.Distinct("b")
 		r.Finish()
 	}
-	budget, maxBound := 30*time.Second, 2
+	budget, maxBound := 45*time.Second, 2
 	if r.Thorough() {
 		budget, maxBound = 8*time.Minute, 3
+	}
+	if v, err := time.ParseDuration(os.Getenv("VERIF_C08_BUDGET")); err == nil && v > 0 {
+		budget = v
 	}
 	if i, n, ok := par.Shard(); ok {
 		for k := i; k < len(names); k += n {
